@@ -315,13 +315,20 @@ PARSED_UNUSED_OK = {}
 
 def owned_arrays(ctx, P, rule="ARRAY-READONLY"):
     ctx.rule(rule, "arrays that alias library memory are created only in make_owned_array, which clears NPY_ARRAY_WRITEABLE and "
-                   "sets the owner as base on every path to its success return; no other function calls PyArray_SimpleNewFromData")
+                   "sets the owner as base on every path to its success return; the same holds for every other constructor that wraps existing "
+                   "memory (PyArray_SimpleNewFromData, PyArray_New / PyArray_NewFromDescr with a non-NULL data argument)")
     tu = P.tus["module"]
     users = []
     for fn in tu.funcs.values():
         for c in calls(fn.body):
-            if callname(c) == "PyArray_SimpleNewFromData":
+            nm_ = callname(c)
+            if nm_ == "PyArray_SimpleNewFromData":
                 users.append((fn, c))
+            elif nm_ in ("PyArray_New", "PyArray_NewFromDescr"):
+                # the general constructors alias memory when their `data` argument (6th) is not NULL
+                args_ = macro_args(tu.src(c)) if c.kids is None or len(c.kids) < 7 else [tu.src(a) for a in c.kids[1:]]
+                if len(args_) >= 6 and args_[5].strip() not in ("NULL", "0"):
+                    users.append((fn, c))
     ctx.need(len(users) >= 1, "PyArray_SimpleNewFromData is used somewhere")
     for fn, c in users:
         src = tu.src(fn.body)
